@@ -1,6 +1,7 @@
 package main
 
 import (
+	"github.com/aperturerobotics/controllerbus/controller"
 	"context"
 	"encoding/binary"
 	"fmt"
@@ -156,11 +157,32 @@ func (e *engine) staticCtlCase(l []string, want map[string]map[string]bool, want
 			if ctl != nil {
 				mon = "NewController returns a controller together with an error"
 			}
+			if fc, ferr := tptaddr_static.NewFactory(nil).Construct(context.Background(), &tptaddr_static.Config{Addresses: append([]string(nil), l...)}, controller.ConstructOpts{}); ferr == nil {
+				_ = fc // (a typed-nil *Controller inside the interface next to the error: callers test the error)
+				mon = "Factory.Construct builds a controller from a configuration with malformed entries"
+			}
+			e.rep.Branches["staticCtl.factory-err"]++
 			return "ok valid=" + valid + " ctl=err"
 		}
 		if ctl == nil {
 			mon = "NewController returns (nil, nil)"
 			return "ok valid=" + valid + " ctl=nil"
+		}
+		// the same configuration through the controller factory (the path a daemon config takes)
+		fac := tptaddr_static.NewFactory(nil)
+		fconf, isConf := fac.ConstructConfig().(*tptaddr_static.Config)
+		var fctl *tptaddr_static.Controller
+		if !isConf || fconf == nil || len(fconf.Addresses) != 0 {
+			mon = "Factory.ConstructConfig is not an empty static Config"
+		} else {
+			fconf.Addresses = append([]string(nil), l...)
+			fc, ferr := fac.Construct(context.Background(), fconf, controller.ConstructOpts{})
+			if ferr != nil || fc == nil {
+				mon = "Factory.Construct fails for a configuration NewController accepts"
+			} else if fctl, _ = fc.(*tptaddr_static.Controller); fctl == nil {
+				mon = "Factory.Construct does not build the static controller"
+			}
+			e.rep.Branches["staticCtl.factory"]++
 		}
 		// a directive of another type is not this controller's business
 		if res, err := ctl.HandleDirective(context.Background(), &fakeInstance{dir: link.NewEstablishLinkWithPeer("", query[0])}); err != nil || len(res) != 0 {
@@ -176,6 +198,14 @@ func (e *engine) staticCtlCase(l []string, want map[string]map[string]bool, want
 			exp := sortedSet(want[pid.String()])
 			if mon == "" && !sameStrings(vals, exp) {
 				mon = fmt.Sprintf("LookupTptAddr for peer %s resolves to %q, the list gives it exactly %q", pid.String(), vals, exp)
+			}
+			if fctl != nil && mon == "" {
+				fvals, fail := lookupVia(fctl, pid)
+				if fail != "" {
+					mon = "factory-built controller: " + fail
+				} else if !sameStrings(fvals, exp) {
+					mon = fmt.Sprintf("the controller built by Factory.Construct resolves peer %s to %q, the list gives it exactly %q", pid.String(), fvals, exp)
+				}
 			}
 			parts = append(parts, lib.Hex([]byte(pid))+":"+hexList(vals))
 		}
